@@ -237,3 +237,17 @@ func trunc(s string, n int) string {
 	}
 	return s
 }
+
+func loadReplay(path string, into interface{}) error {
+	b, err := os.ReadFile(path)
+	if err != nil {
+		return err
+	}
+	var wrap struct {
+		Replay json.RawMessage `json:"replay"`
+	}
+	if err := json.Unmarshal(b, &wrap); err == nil && len(wrap.Replay) > 0 {
+		return json.Unmarshal(wrap.Replay, into)
+	}
+	return json.Unmarshal(b, into)
+}
